@@ -241,6 +241,16 @@ def run(ctx):
     if a_ok["outcome"] != "NoError":
         ctx.violation("spec:ChunkArith", "Apalache refutes ChunkOK for the transcribed ceil-division chunking (n, m in 1..10^6)", {"k": "apalache"})
     ctx.bounds["chunk arithmetic (Apalache, symbolic)"] = "all n, m in 1..10^6"
+    s_ok = apalache.check("MC_ScaleArith_True", "ShortfallSmall", timeout=600)
+    s_bad = apalache.check("MC_ScaleArith_False", "ShortfallSmall", timeout=600)
+    ctx.tlc_runs += [s_ok, s_bad]
+    if s_bad["outcome"] != "Error":
+        from ..tlc import TLCError
+
+        raise TLCError("vacuity: Apalache does not refute the shortfall bound with ceiling shares")
+    if s_ok["outcome"] != "NoError":
+        ctx.violation("spec:ScaleArith", "Apalache refutes the shortfall bound of floor shares (three weights, all values up to 10^5)", {"k": "apalache"})
+    ctx.bounds["floor-share shortfall (Apalache, symbolic)"] = "three weights and the total, all up to 10^5"
     # the real helper at a few large sizes inside that range (the small box is enumerated by TLC above)
     from orquestra.quantum.circuits._itertools import expand_sample_sizes, split_into_batches
 
